@@ -270,8 +270,9 @@ def gen_world(rng, cfg, *, nroots=1, hostile=True, links=True, max_files=24, fam
                                mt=T0_NS - rng.randint(1, 10**6) * 10**9)
                     extra.append(b2s(q))
     if links and regular:
-        for _ in range(rng.choice([0, 0, 1, 2])):
-            tgt = rng.choice(regular)
+        # wide worlds: many links to few inodes (replica counting over long runs of one inode)
+        for _ in range(rng.choice([12, 25, 40]) if wide else rng.choice([0, 0, 1, 2])):
+            tgt = rng.choice(regular[:3]) if wide else rng.choice(regular)
             parent = rng.choice(dirs)
             nm = names.fresh(parent)
             w.add_hardlink(b2s(parent + b"/" + nm), tgt)
